@@ -65,12 +65,94 @@ static void show_state(HashMap *map) {
   printf("\n");
 }
 
+// ---- byte-string keys through the clients' conventions (drv_c17 hashmapx) ----
+// kput <conv> <hexobj> <len> <val> | kdel <conv> <hexobj> <len> | kget <conv> <hexobj> <len> | hash <hex>
+// <hexobj>: the bytes of the object from the key pointer to its end ("-" = none).  The object is
+// malloc'ed with exactly that size, so that ASan reports any read past its end.
+//   span: hashmap_*2(map, obj, len)              -- (tok->loc, tok->len)
+//   dup : hashmap_*(map, strndup(obj, len))      -- get_ident(tok) / strndup(tok->loc, tok->len)
+//   cstr: hashmap_*(map, obj)                    -- an existing NUL-terminated string
+static void show_hex(char *p, int n) {
+  if (n == 0) printf("-");
+  for (int i = 0; i < n; i++) printf("%02x", (unsigned char)p[i]);
+}
+
+static void show_state_hex(HashMap *map) {
+  printf("used=%d cap=%d", map->used, map->capacity);
+  if (map->capacity <= 64) {
+    printf(" [");
+    for (int i = 0; i < map->capacity; i++) {
+      HashEntry *e = &map->buckets[i];
+      if (i) printf(" ");
+      if (!e->key) printf("E");
+      else if (e->key == TOMBSTONE) printf("T");
+      else { show_hex(e->key, e->keylen); printf("=%zu", (size_t)e->val); }
+    }
+    printf("]");
+  } else {
+    int live = 0, tombs = 0;
+    for (int i = 0; i < map->capacity; i++) {
+      HashEntry *e = &map->buckets[i];
+      if (e->key == TOMBSTONE) tombs++;
+      else if (e->key) live++;
+    }
+    printf(" live=%d tombs=%d", live, tombs);
+  }
+  printf("\n");
+}
+
+static char *unhex(char *h, int *n) {
+  if (!strcmp(h, "-")) { *n = 0; return malloc(0); }
+  int len = strlen(h) / 2;
+  char *p = malloc(len);
+  for (int i = 0; i < len; i++) {
+    unsigned x; sscanf(h + 2 * i, "%2x", &x); p[i] = (char)x;
+  }
+  *n = len;
+  return p;
+}
+
+static int kop(HashMap *map, char *line) {
+  static char op[16], conv[16], hex[70000]; int len = 0; unsigned long val = 0;
+  int n = sscanf(line, "%15s %15s %69999s %d %lu", op, conv, hex, &len, &val);
+  if (!strcmp(op, "hash") && n >= 2) {
+    int m;
+    sscanf(line, "%*s %69999s", hex);     // the operand is the second word
+    char *p = unhex(hex, &m);
+    printf("hash %lu\n", (unsigned long)fnv_hash(p, m));
+    return 1;
+  }
+  if (n < 4) return 0;
+  int objlen; char *obj = unhex(hex, &objlen);
+  int which = !strcmp(op, "kput") ? 0 : !strcmp(op, "kdel") ? 1 : !strcmp(op, "kget") ? 2 : -1;
+  if (which < 0 || (which == 0 && n != 5)) return 0;
+  void *r = NULL;
+  if (!strcmp(conv, "span")) {
+    if (which == 0) hashmap_put2(map, obj, len, (void *)(size_t)val);
+    else if (which == 1) hashmap_delete2(map, obj, len);
+    else r = hashmap_get2(map, obj, len);
+  } else if (!strcmp(conv, "dup") || !strcmp(conv, "cstr")) {
+    char *k = !strcmp(conv, "dup") ? strndup(obj, len) : obj;
+    if (which == 0) hashmap_put(map, k, (void *)(size_t)val);
+    else if (which == 1) hashmap_delete(map, k);
+    else r = hashmap_get(map, k);
+  } else return 0;
+  if (which == 0) { printf("put "); show_state_hex(map); }
+  else if (which == 1) { printf("del "); show_state_hex(map); }
+  else if (r) printf("get %zu\n", (size_t)r); else printf("get NULL\n");
+  return 1;
+}
+
 int main(void) {
   signal(SIGFPE, on_fpe);
   HashMap *map = calloc(1, sizeof(HashMap));
-  char line[4096];
+  static char line[80000];
   while (fgets(line, sizeof line, stdin)) {
     char op[16], key[2048]; unsigned long val;
+    if (line[0] == 'k' || !strncmp(line, "hash ", 5)) {
+      if (!kop(map, line)) printf("bad-op\n");
+      continue;
+    }
     int n = sscanf(line, "%15s %2047s %lu", op, key, &val);
     if (n <= 0) continue;
     if (!strcmp(op, "put") && n == 3) {
